@@ -96,8 +96,9 @@ def mypy_expression_to_sds_type(expr: mp_nodes.Expression) -> sds_types.Abstract
     if isinstance(expr, mp_nodes.NameExpr):
         if expr.name in {"False", "True"}:
             return sds_types.NamedType(name="bool", qname="builtins.bool")
-        elif isinstance(expr.node, mp_nodes.Var) and expr.name != "None":
-            # A variable is a value, not a type, its name can't be used as a type
+        elif not isinstance(expr.node, mp_nodes.TypeInfo) and expr.name != "None":
+            # Only the name of a class can be used as a type, not the name of a variable, function or module or a name
+            # that could not be resolved
             raise TypeError("Unexpected expression type.")
         else:
             return sds_types.NamedType(name=expr.name, qname=expr.fullname)
